@@ -112,9 +112,13 @@ def twin_case(ctx):
     return a, b, sum(1 for _ in str(tree).split("'s2'")) - 1
 
 
-def compare(a, b, fin, strict, failing):
+def compare(a, b, fin, strict, failing, edge=False):
     ra, rb = e2e.run_real(a, fin, strict), e2e.run_real(b, fin, strict)
     inp = {"src": a, "twin": b, "opts": {"fin": fin, "strict": strict}}
+    if edge:
+        inp["edge"] = True
+        if not ra["exc"] and ra["funcs"].get("f") is None:
+            return None, None          # an edge form the gate refuses: nothing is claimed about it
     if ra["exc"] or rb["exc"]:
         if (ra["exc"] or [None])[0] == "ParseError" or (rb["exc"] or [None])[0] == "ParseError":
             return None, None
@@ -184,7 +188,7 @@ def run(ctx):
             if ra["exc"] or ra["funcs"].get("f") is None:
                 continue                      # refused in strict mode: nothing is claimed about it
             nedge += 1
-            compare(a, b, True, True, failing)
+            compare(a, b, True, True, failing, edge=True)
     if ctx.coq_ok:
         mism += e2e.coq_compare("c18", coq_cases)
     else:
@@ -203,5 +207,5 @@ def replay(ctx, data):
     inp = data.get("input", data)
     failing = []
     o = inp.get("opts", {})
-    compare(inp["src"], inp["twin"], o.get("fin", True), o.get("strict", False), failing)
+    compare(inp["src"], inp["twin"], o.get("fin", True), o.get("strict", False), failing, edge=bool(inp.get("edge")))
     return failing[0] if failing else None
